@@ -152,6 +152,7 @@ PROPS["C10"] = {"units": [
     plain_unit("regress-async0", "rdl", "^TestRegressC10", overlay="plain", env={"GODEBUG": "asynctimerchan=0"}),
     rapid_unit("deadlines-async1", "rdl", "^TestC10Deadlines$", 150, 16 * 400, overlay="plain", env={"GODEBUG": "asynctimerchan=1"}),
     rapid_unit("deadlines-async0", "rdl", "^TestC10Deadlines$", 150, 16 * 400, overlay="plain", env={"GODEBUG": "asynctimerchan=0"}),
+    rapid_unit("virtual-deadlines", "rdlv", "^TestC10VirtualDeadlines$", 1500, 16 * 15000, overlay="full", shrinktime="5s"),
 ]}
 
 PROPS["C19"] = {"units": [
